@@ -310,9 +310,78 @@ def rule_shapes(ck):
     ck.ob("mpt.step_shape", "step_over_any/breakpoints-only-on-is_stmt-rows", guarded >= 2 and guarded >= len(pushes) - 1, f"{guarded} of {len(pushes)} pushes are under an is_stmt test (the return-address push is the exception)", sv.loc())
 
 
+def rule_frame_identity(ck):
+    """a temporary breakpoint is an address, not an activation: recursion reaches it in other frames"""
+    prog = ck.prog
+    ck.rule("mpt.step_frame_identity", "in step_over_any (next) and step_out_frame (finish), every continue_execution issued while a temporary breakpoint installed by that function is armed sits in a loop: the frame (CFA) is taken before the loop, taken again after the stop, and an ordering comparison of the two decides whether to continue again — `next` must not stop in a deeper activation of the same function, `finish` must not stop before the stack is above the frame it leaves. step_in compares CFAs as well (the model instance)")
+    CFA = ("::current_cfa", "DebugInformation::get_cfa")
+    def cfa_calls(f):
+        return [c for c in f.calls() if c.name.endswith(CFA)]
+    for nm in ("step_over_any", "step_out_frame"):
+        f = prog.method(DBG, nm)
+        ck.saw(f)
+        outer = f
+        temps = [c for c in f.calls() if c.name.endswith("BreakpointRegistry::add_and_enable") and "new_temporary" in expr_str(expr_of(f, c.args[1], depth=6), 6)]
+        # installs done inside closures (try_for_each) count through the closure's call site
+        for c in f.calls():
+            if any(prog.call_reaches(c, {"debugger::breakpoint::Breakpoint::new_temporary"}, depth=2) for _ in (0,)) and c not in temps and not c.name.endswith("new_temporary"):
+                temps.append(c)
+        ck.ob("mpt.step_frame_identity", f"{nm}/installs-temporary-breakpoints", bool(temps), "", f.loc())
+        if not temps:
+            continue
+        first = min(temps, key=lambda c: len(f.dominators().get(c.bb, ())))
+        conts = [(f, c) for c in f.calls() if c.name == DBG + "::continue_execution" and (c.bb in f.after(first.bb))]
+        # the resume may sit in a closure invoked after the installation (`install_result.and_then(|_| ..)`)
+        for p_ in prog.closures_of(f.path):
+            g = prog.fns[p_]
+            for c in g.calls():
+                if c.name == DBG + "::continue_execution":
+                    conts.append((g, c))
+                    ck.saw(g)
+        ck.ob("mpt.step_frame_identity", f"{nm}/resumes-with-them-armed", bool(conts), "", f.loc())
+        outer = f
+        for key, (f, c) in keyed_sites(conts, lambda x: nm + "/continue"):
+            in_loop = c.bb in f.after(c.bb)
+            loop = {b for b in f.after(c.bb) if c.bb in f.after(b)} | {c.bb} if in_loop else set()
+            pre = [x for x in cfa_calls(f) if x.bb not in loop and f.dominates(x.bb, c.bb)]
+            post = [x for x in cfa_calls(f) if x.bb in loop and x.bb != c.bb and f.dominates(c.bb, x.bb)]
+            cmps = []
+            for x in f.calls():
+                if x.bb in loop and re.search(r"PartialOrd::(lt|le|gt|ge)$", x.name) and "RelocatedAddress" in " ".join(str(g) for g in (x.gargs or [])):
+                    cmps.append(x)
+            for i, j, pl, rv, sp in f.assigns():
+                if i in loop and rv["r"] == "bin" and rv["op"] in ("Lt", "Le", "Gt", "Ge"):
+                    e = expr_str(expr_of(f, pl[0], depth=8), 8)
+                    if "cfa" in e:
+                        cmps.append(None)
+            ok = in_loop and bool(pre) and bool(post) and bool(cmps)
+            why = []
+            if not in_loop:
+                why.append("the resume is not in a loop")
+            if not pre:
+                why.append("no frame address taken before resuming")
+            if not post:
+                why.append("no frame address taken after the stop")
+            if not cmps:
+                why.append("no ordering comparison of frame addresses")
+            if f is not outer and not pre:
+                # frame address taken in the enclosing function and captured
+                pre = [x for x in cfa_calls(outer)]
+                ok = in_loop and bool(pre) and bool(post) and bool(cmps)
+                why = [w for w in why if not w.startswith("no frame address taken before")] + ([] if pre else ["no frame address taken before resuming"])
+            ck.ob("mpt.step_frame_identity", f"{key}/frame-compared-before-accepting-the-stop", ok, "; ".join(why) + (": with recursion the temporary breakpoint is reached first by another activation" if why else ""), f.loc(c.bb), what=f"{nm}: a temporary breakpoint hit in a deeper activation (recursion) ends the step")
+    # the model instance
+    si = prog.method(DBG, "step_in")
+    ck.saw(si)
+    n = len(cfa_calls(si))
+    eq = [c for c in si.calls() if re.search(r"PartialEq>?::(ne|eq)$", c.name) and "RelocatedAddress" in (c.name + " ".join(str(g) for g in (c.gargs or [])))]
+    ck.ob("mpt.step_frame_identity", "step_in/compares-start-and-current-cfa", n >= 2 and bool(eq), f"{n} CFA reads, {len(eq)} comparisons", si.loc())
+
+
 def run(ck):
     S = summaries(ck.prog)
     rule_reanchor(ck, S)
     rule_report_real_pc(ck, S)
     rule_interrupts(ck)
     rule_shapes(ck)
+    rule_frame_identity(ck)
